@@ -447,3 +447,215 @@ Print Assumptions C03_doc_cores_par_partial.
 Print Assumptions C03_compositional_par_source_partial.
 Print Assumptions C03_end_to_end_nonvacuous.
 Print Assumptions C03_compositional_par_source_nonvacuous.
+
+(** * C03 over the EXTENDED document grammar ([Proofs/Compose2Render.v])
+
+    [abstract2 src lt cx kbg n] recognises MORE nodes than [abstract] and maps them into the
+    SAME specification language [core] — the specification [render] is unchanged:
+    - a macro whose replacement is a %-template ([\frac] = [%s/%s], [\sqrt] = [√(%(2)s)],
+      [\footnote] = [[%(2)s]], [\url], [\underline], [\textcolor] ...) with whatever arguments
+      were parsed (braced groups, optional [[..]] groups, absent optional arguments, single
+      tokens) is the transparent item [KTransparent [..]] made of the template's literal
+      characters ([KSpecials [c]]) and, for every [%s] / [%(i)s], the transparent contents
+      [KTransparent arg] of the corresponding argument: [\frac{a}{b}] renders like [a/b],
+      [\sqrt[n]{x}] like [√(x)];
+    - [\item[label]], when [keep_braced_groups] is off ([kbg = false]; with it the label is
+      rendered with its brackets, which [core] cannot say), is
+      [KTransparent [KSpecials "\n  "; KTransparent label]];
+    - everything [abstract] recognises (these allowed inside all bodies): text, comments,
+      groups, formatting macros, symbols, accents, specials, the paragraph break, the four
+      kinds of formulas ([$$ .. $$] included), transparent / wrapping environments. *)
+From PLV Require Import Doc.DocGrammar2 Proofs.Compose2Render.
+
+Theorem C03_tree_level2 : forall src lt cx o items ks,
+  abstract2_items src lt cx (o_kbg o) items = Some ks ->
+  forall sl st p e, node_text src lt cx o sl st (NList p e items) = (render (nfc_accent lt) o sl ks, st).
+Proof. exact tree_level2. Qed.
+
+Theorem C03_node_level2 : forall src lt cx o n k,
+  abstract2 src lt cx (o_kbg o) n = Some k ->
+  forall sl st, node_text src lt cx o sl st n = (render1 (nfc_accent lt) o sl k, st).
+Proof. exact abstract2_sound. Qed.
+
+(** END TO END over the extended grammar: for every document [d] of [Doc/DocGrammar2.v]
+    satisfying [ok_doc2] (environments with arguments and math bodies, [$$..$$], specials,
+    optional / star / single-token / verbatim arguments, comments before arguments) whose
+    MEANING [tree_of2 d] — a function of the document alone — is recognised by [abstract2]
+    under the default tables ([doc_tree_cores2 kbg d = Some ks], decidable, computes [ks]),
+    the string-level conversion is the specification's rendering of [ks].
+
+    PARTIAL: the extended grammar is not all of LaTeX; [\item[..]] only with
+    [keep_braced_groups] off; a template macro without argument nodes is not recognised. *)
+Theorem C03_end_to_end2_partial : forall (d : doc2) o ks,
+  ok_doc2 cx0 d = true -> doc_tree_cores2 (o_kbg o) d = Some ks ->
+  latex_to_text o (unparse2 d) false = Some (render (nfc_accent lt0) o (o_sls o) ks, d0).
+Proof. exact end_to_end2. Qed.
+
+Section EndToEnd2Example.
+  Open Scope N_scope.
+  (** the templates of the default database (regenerated from /repo on every run) *)
+  Example C03_default_templates :
+    macro_template lt0 [102;114;97;99] = Some [FPos; FLit 47; FPos]                       (* \frac: %s/%s *)
+    /\ macro_template lt0 [115;113;114;116] = Some [FLit 8730; FLit 40; FKey [50]; FLit 41]   (* \sqrt: √(%(2)s) *)
+    /\ macro_template lt0 [102;111;111;116;110;111;116;101] = Some [FLit 91; FKey [50]; FLit 93]   (* \footnote: [%(2)s] *)
+    /\ item_macro lt0 [105;116;101;109] = true.
+  Proof. vm_compute. repeat split. Qed.
+
+  (** [\frac{1}{2}\sqrt[3]{x}\begin{itemize}\item[a] b\item c\end{itemize}\begin{center}x~y\end{center}$$z$$] *)
+  Let d1 : doc2 := {| d_items2 :=
+    [Mac2 [] [102;114;97;99] [] [Grp2 [] [Text2 [] [49]] []; Grp2 [] [Text2 [] [50]] []];
+     Mac2 [] [115;113;114;116] [] [Brk2 [] 91 93 [Text2 [] [51]] []; Grp2 [] [Text2 [] [120]] []];
+     Env2 [] [] [105;116;101;109;105;122;101] [Abs2]
+       [Mac2 [] [105;116;101;109] [] [Brk2 [] 91 93 [Text2 [] [97]] []]; Text2 [32] [98];
+        Mac2 [] [105;116;101;109] [32] [Abs2]; Text2 [] [99]] [] [];
+     Env2 [] [] [99;101;110;116;101;114] [] [Text2 [] [120]; Spc2 [] [126] []; Text2 [] [121]] [] [];
+     Math2 [] MDollars [Text2 [] [122]] []]; d_trail2 := [] |}.
+  Let ks1 : list core :=
+    [KTransparent [KTransparent [KText [49]]; KSpecials [47]; KTransparent [KText [50]]];
+     KTransparent [KSpecials [8730]; KSpecials [40]; KTransparent [KText [120]]; KSpecials [41]];
+     KEnvBody [KTransparent [KSpecials [10; 32; 32]; KTransparent [KText [97]]]; KText [32; 98];
+               KSymbol [10; 32; 32; 42; 32] [32]; KText [99]];
+     KEnvWrap [10] [10] [KText [120]; KSpecials [160]; KText [121]];
+     KMath true [36; 36] [36; 36] [36; 36; 122; 36; 36] [KText [122]]].
+  Let o1 : opts := {| o_math := MMText; o_keep_comments := false; o_sls := sls_bos; o_kbg := false; o_kbg_minlen := 0 |}.
+  Let o2 : opts := {| o_math := MMVerbatim; o_keep_comments := true; o_sls := sls_bos; o_kbg := false; o_kbg_minlen := 0 |}.
+  (** [\frac1{{2}}\sqrt{x}]: a single-token argument, a nested group, an absent optional argument; no
+      [\item[..]], so [keep_braced_groups] may be on *)
+  Let d3 : doc2 := {| d_items2 :=
+    [Mac2 [] [102;114;97;99] [] [Text2 [] [49]; Grp2 [] [Grp2 [] [Text2 [] [50]] []] []];
+     Mac2 [] [115;113;114;116] [] [Abs2; Grp2 [] [Text2 [] [120]] []]]; d_trail2 := [] |}.
+  Let ks3 : list core :=
+    [KTransparent [KTransparent [KText [49]]; KSpecials [47]; KTransparent [KGroup [KText [50]]]];
+     KTransparent [KSpecials [8730]; KSpecials [40]; KTransparent [KText [120]]; KSpecials [41]]].
+  Let o3 : opts := {| o_math := MMText; o_keep_comments := false; o_sls := sls_bos; o_kbg := true; o_kbg_minlen := 0 |}.
+
+  Example C03_end_to_end2_nonvacuous :
+    ok_doc2 cx0 d1 = true /\ length (unparse2 d1) = 101%nat
+    /\ doc_tree_cores2 false d1 = Some ks1 /\ doc_tree_cores2 true d1 = None
+    /\ (forall o, o_kbg o = false ->
+        latex_to_text o (unparse2 d1) false = Some (render (nfc_accent lt0) o (o_sls o) ks1, d0))
+    (* [1/2√(x)\n  a b\n  *  c\nx y\n\n    z\n] ([~] is U+00A0) *)
+    /\ render (nfc_accent lt0) o1 (o_sls o1) ks1
+       = [49; 47; 50; 8730; 40; 120; 41; 10; 32; 32; 97; 32; 98; 10; 32; 32; 42; 32; 32; 99; 10; 120; 160; 121;
+          10; 10; 32; 32; 32; 32; 122; 10]
+    /\ render (nfc_accent lt0) o2 (o_sls o2) ks1
+       = [49; 47; 50; 8730; 40; 120; 41; 10; 32; 32; 97; 32; 98; 10; 32; 32; 42; 32; 32; 99; 10; 120; 160; 121;
+          10; 10; 36; 36; 122; 36; 36; 10]
+    /\ ok_doc2 cx0 d3 = true /\ unparse2 d3 = [92;102;114;97;99;49;123;123;50;125;125;92;115;113;114;116;123;120;125]
+    /\ (forall o, latex_to_text o (unparse2 d3) false = Some (render (nfc_accent lt0) o (o_sls o) ks3, d0))
+    /\ render (nfc_accent lt0) o3 (o_sls o3) ks3 = [49; 47; 123; 50; 125; 8730; 40; 120; 41].
+  Proof.
+    assert (O1 : ok_doc2 cx0 d1 = true) by (vm_compute; reflexivity).
+    assert (C1 : doc_tree_cores2 false d1 = Some ks1) by (vm_compute; reflexivity).
+    assert (O3 : ok_doc2 cx0 d3 = true) by (vm_compute; reflexivity).
+    split; [exact O1|]. split; [vm_compute; reflexivity|]. split; [exact C1|]. split; [vm_compute; reflexivity|].
+    split; [intros o K; apply C03_end_to_end2_partial; [exact O1|rewrite K; exact C1]|].
+    split; [vm_compute; reflexivity|]. split; [vm_compute; reflexivity|].
+    split; [exact O3|]. split; [vm_compute; reflexivity|].
+    split; [|vm_compute; reflexivity].
+    intros o. apply C03_end_to_end2_partial; [exact O3|]. destruct (o_kbg o); vm_compute; reflexivity.
+  Qed.
+End EndToEnd2Example.
+
+Print Assumptions C03_tree_level2.
+Print Assumptions C03_node_level2.
+Print Assumptions C03_end_to_end2_partial.
+Print Assumptions C03_default_templates.
+Print Assumptions C03_end_to_end2_nonvacuous.
+
+(** * End to end over the extended grammar with a SYNTACTIC side condition ([Proofs/Compose2RenderDoc.v])
+
+    [doc_cores2 lt cx kbg d : option (list core)] is computed from the document alone, without
+    positions or the collector (the accumulator of [doc_cores]: finished items, pending
+    characters).  [core_of2] per item: comment, paragraph break, group, formula (four kinds),
+    environment rendered as its body or wrapped ([transparent_env] / [wrap_env]; whatever its
+    arguments), specials, bare symbol macro, formatting / accent macro with ONE argument — a
+    braced group, possibly after comments, for accents also a one-character token —, [\item]
+    with its optional argument absent or (when [kbg = false]) written, and every %-template
+    macro with as many arguments as slots, each a braced group, an optional group written or
+    absent, a one-character token, possibly after comments.  Not core: the verbatim
+    constructs, control-sequence / specials tokens as arguments, callables other than accents
+    and [\item]. *)
+From PLV Require Import Proofs.Compose2RenderDoc.
+
+(** the meaning of such a document is recognised by [abstract2], with exactly the computed
+    items: any databases, any parsing state, any string [s] in which the document is written at
+    offset [pos] *)
+Theorem C03_doc_tree_core2_partial : forall lt cx kbg s ps pos fol (d : doc2) ks,
+  ok_doc2 cx d = true -> doc_cores2 lt cx kbg d = Some ks -> skipn pos s = unparse2 d ++ fol ->
+  abstract2_items s lt cx kbg (fst (tree_of2 cx ps pos d)) = Some ks.
+Proof.
+  intros lt cx kbg s ps pos fol d ks O C SK.
+  exact (tree_cores2 lt cx kbg s ps pos fol d ks C (Proofs.Compose2Comments.ok_doc_arity2 cx d O) SK).
+Qed.
+
+Theorem C03_end_to_end2_doc_partial : forall (d : doc2) o ks,
+  ok_doc2 cx0 d = true -> doc_cores2 lt0 cx0 (o_kbg o) d = Some ks ->
+  latex_to_text o (unparse2 d) false = Some (render (nfc_accent lt0) o (o_sls o) ks, d0).
+Proof. exact end_to_end2_doc. Qed.
+
+Section EndToEnd2DocExample.
+  Open Scope N_scope.
+  (** [\'e \textbf%c\n{x}\footnote{a $b$}]: an accent with a one-character token, a formatting
+      macro whose argument is preceded by a comment, a keyed template with an absent optional
+      argument and a formula inside its argument *)
+  Let d4 : doc2 := {| d_items2 :=
+    [Mac2 [] [39] [] [Text2 [] [101]];
+     Mac2 [32] [116;101;120;116;98;102] [] [Pre2 [] [99] [10] (Grp2 [] [Text2 [] [120]] [])];
+     Mac2 [] [102;111;111;116;110;111;116;101] []
+          [Abs2; Grp2 [] [Text2 [] [97]; Math2 [32] MDollar [Text2 [] [98]] []] []]]; d_trail2 := [] |}.
+  Let ks4 : list core :=
+    [KAccent 769 (KText [101]); KText [32]; KTransparent [KText [120]];
+     KTransparent [KSpecials [91];
+                   KTransparent [KText [97; 32]; KMath false [36] [36] [36; 98; 36] [KText [98]]];
+                   KSpecials [93]]].
+  (** [\frac{1}{2}\sqrt[3]{x}\begin{itemize}\item[a] b\item c\end{itemize}\begin{center}x~y\end{center}$$z$$] *)
+  Let d1 : doc2 := {| d_items2 :=
+    [Mac2 [] [102;114;97;99] [] [Grp2 [] [Text2 [] [49]] []; Grp2 [] [Text2 [] [50]] []];
+     Mac2 [] [115;113;114;116] [] [Brk2 [] 91 93 [Text2 [] [51]] []; Grp2 [] [Text2 [] [120]] []];
+     Env2 [] [] [105;116;101;109;105;122;101] [Abs2]
+       [Mac2 [] [105;116;101;109] [] [Brk2 [] 91 93 [Text2 [] [97]] []]; Text2 [32] [98];
+        Mac2 [] [105;116;101;109] [32] [Abs2]; Text2 [] [99]] [] [];
+     Env2 [] [] [99;101;110;116;101;114] [] [Text2 [] [120]; Spc2 [] [126] []; Text2 [] [121]] [] [];
+     Math2 [] MDollars [Text2 [] [122]] []]; d_trail2 := [] |}.
+  (** [\verb|x|]: well-formed, not core *)
+  Let dv : doc2 := {| d_items2 := [Vrb2 [] [118;101;114;98] [] 124 [120]]; d_trail2 := [] |}.
+
+  Example C03_end_to_end2_doc_nonvacuous :
+    ok_doc2 cx0 d4 = true
+    /\ unparse2 d4 = [92;39;101;32;92;116;101;120;116;98;102;37;99;10;123;120;125;92;102;111;111;116;110;111;116;101;
+                      123;97;32;36;98;36;125]
+    /\ (forall kbg, doc_cores2 lt0 cx0 kbg d4 = Some ks4)
+    /\ (forall o, latex_to_text o (unparse2 d4) false = Some (render (nfc_accent lt0) o (o_sls o) ks4, d0))
+    (* [éx[a b]] (the blank text node between two constructs is dropped under this policy) *)
+    /\ render (nfc_accent lt0)
+              {| o_math := MMText; o_keep_comments := true; o_sls := sls_bos; o_kbg := false; o_kbg_minlen := 0 |}
+              sls_bos ks4 = [233; 120; 91; 97; 32; 98; 93]
+    (* the syntactic computation agrees with the reading of the meaning tree *)
+    /\ doc_cores2 lt0 cx0 false d1 = doc_tree_cores2 false d1 /\ doc_cores2 lt0 cx0 true d1 = None
+    /\ (exists ks, doc_cores2 lt0 cx0 false d1 = Some ks /\ length ks = 5%nat)
+    /\ ok_doc2 cx0 dv = true /\ doc_cores2 lt0 cx0 false dv = None.
+  Proof.
+    assert (O4 : ok_doc2 cx0 d4 = true) by (vm_compute; reflexivity).
+    assert (C4 : forall kbg, doc_cores2 lt0 cx0 kbg d4 = Some ks4) by (intros [|]; vm_compute; reflexivity).
+    split; [exact O4|]. split; [vm_compute; reflexivity|]. split; [exact C4|].
+    split; [intros o; exact (C03_end_to_end2_doc_partial d4 o ks4 O4 (C4 _))|].
+    split; [vm_compute; reflexivity|]. split; [vm_compute; reflexivity|]. split; [vm_compute; reflexivity|].
+    split; [eexists; split; vm_compute; reflexivity|].
+    split; vm_compute; reflexivity.
+  Qed.
+End EndToEnd2DocExample.
+
+Print Assumptions C03_doc_tree_core2_partial.
+Print Assumptions C03_end_to_end2_doc_partial.
+Print Assumptions C03_end_to_end2_doc_nonvacuous.
+
+(** the extended theorem subsumes the one of the core grammar: a core document that is core for
+    [doc_cores] is, embedded by [up_doc] ([C02_core_grammar_embeds]: same written form, [ok_doc2]),
+    core for [doc_cores2] with the same items — so [C03_end_to_end_partial] is an instance of
+    [C03_end_to_end2_doc_partial] ([Proofs/Compose2RenderEmbed.v: end_to_end_from_extended]) *)
+From PLV Require Import Proofs.Compose2RenderEmbed.
+Theorem C03_doc_cores_embeds : forall lt cx kbg (d : DocGrammar.doc) ks,
+  doc_cores lt cx d = Some ks -> doc_cores2 lt cx kbg (up_doc d) = Some ks.
+Proof. exact doc_cores_embed. Qed.
+Print Assumptions C03_doc_cores_embeds.
